@@ -1,7 +1,7 @@
 (* C01 ceiling: coverage, area, idempotence and complement of the per-face kernel (snapped distances). *)
 From Coq Require Import ZArith Reals Lra Psatz List Bool Lia Arith.
 From PW Require Import Num NumR Vec NpList Result.
-From PW.model Require Import M_slicing.
+From PW.model Require Import M_slicing M_slicing_spec.
 From PW.proofs Require Import P_vec P_nplist P_slicing P_slicing_face.
 Import ListNotations.
 Local Open Scope R_scope.
@@ -99,13 +99,6 @@ Proof.
 Qed.
 
 (* ---- area: explicit fraction of the face's vector area that is kept ------------------------------------------ *)
-Definition frac_case (c : fcase) (ds : R * R * R) : R :=
-  match c with
-  | Keep => 1
-  | Drop => 0
-  | CQuad k => frac_quad0 (dget ds k) (dget ds ((k + 1) mod 3)) (dget ds ((k + 2) mod 3))
-  | CTri k => frac_tri0 (dget ds k) (dget ds ((k + 1) mod 3)) (dget ds ((k + 2) mod 3))
-  end.
 Lemma area_frac_rot t k l f : (k < 3)%nat -> area_frac (rot3 t k) l f -> area_frac t l f.
 Proof. intros Hk [H1 H2]. split; [exact H1|]. rewrite H2, tri_normal_rot by exact Hk. reflexivity. Qed.
 
